@@ -1,1 +1,1548 @@
-//! refpdf::ttf — not written yet.
+//! refpdf::ttf — sfnt / TrueType reader written from the OpenType specification
+//! (otff: table directory and checksums; head, maxp, hhea, hmtx, loca, glyf, cmap), plus
+//! a writer for small synthetic TrueType fonts (`synth`).
+//!
+//! Independent of /repo: nothing here is derived from the library's font code.
+//! Validation (unit tests below): every glyph of the two bundled fonts decodes, every
+//! table checksum and the whole-file checksum verify, the flattened outline of every
+//! glyf glyph (composites included) reproduces the bounding box stored in its header,
+//! cmap format 4 and format 12 subtables of one font agree on the BMP, and synthetic
+//! fonts written by `synth` read back to exactly the outlines they were specified with.
+
+pub type R<T> = Result<T, String>;
+
+fn need(d: &[u8], o: usize, n: usize, what: &str) -> R<()> {
+    if o.checked_add(n).map(|e| e <= d.len()).unwrap_or(false) {
+        Ok(())
+    } else {
+        Err(format!("{what}: need {n} bytes at {o}, have {}", d.len()))
+    }
+}
+pub fn u8at(d: &[u8], o: usize) -> R<u8> {
+    need(d, o, 1, "u8")?;
+    Ok(d[o])
+}
+pub fn u16at(d: &[u8], o: usize) -> R<u16> {
+    need(d, o, 2, "u16")?;
+    Ok(u16::from_be_bytes([d[o], d[o + 1]]))
+}
+pub fn i16at(d: &[u8], o: usize) -> R<i16> {
+    Ok(u16at(d, o)? as i16)
+}
+pub fn u32at(d: &[u8], o: usize) -> R<u32> {
+    need(d, o, 4, "u32")?;
+    Ok(u32::from_be_bytes([d[o], d[o + 1], d[o + 2], d[o + 3]]))
+}
+
+/// otff "Calculating Checksums": sum of big-endian uint32 words, the table being
+/// padded with zero bytes to a multiple of four.
+pub fn table_checksum(data: &[u8]) -> u32 {
+    let mut sum = 0u32;
+    for ch in data.chunks(4) {
+        let mut w = [0u8; 4];
+        w[..ch.len()].copy_from_slice(ch);
+        sum = sum.wrapping_add(u32::from_be_bytes(w));
+    }
+    sum
+}
+
+pub fn tag_str(t: &[u8; 4]) -> String {
+    t.iter().map(|&b| if (0x20..0x7f).contains(&b) { b as char } else { '?' }).collect()
+}
+
+#[derive(Clone, Debug, PartialEq, Eq)]
+pub struct TableRec {
+    pub tag: [u8; 4],
+    pub checksum: u32,
+    pub offset: u32,
+    pub length: u32,
+}
+
+/// The sfnt wrapper: offset table + table directory.
+#[derive(Clone, Debug)]
+pub struct Sfnt {
+    pub data: Vec<u8>,
+    pub version: u32,
+    pub search_range: u16,
+    pub entry_selector: u16,
+    pub range_shift: u16,
+    pub tables: Vec<TableRec>,
+}
+
+impl Sfnt {
+    pub fn parse(data: &[u8]) -> R<Sfnt> {
+        let version = u32at(data, 0)?;
+        if version != 0x0001_0000 && version != 0x4F54_544F && version != 0x7472_7565 {
+            return Err(format!("sfnt version {version:#010x} is not 0x00010000 / 'OTTO' / 'true'"));
+        }
+        let n = u16at(data, 4)? as usize;
+        let mut tables = Vec::with_capacity(n);
+        for i in 0..n {
+            let o = 12 + 16 * i;
+            need(data, o, 16, "table record")?;
+            tables.push(TableRec {
+                tag: [data[o], data[o + 1], data[o + 2], data[o + 3]],
+                checksum: u32at(data, o + 4)?,
+                offset: u32at(data, o + 8)?,
+                length: u32at(data, o + 12)?,
+            });
+        }
+        Ok(Sfnt {
+            data: data.to_vec(),
+            version,
+            search_range: u16at(data, 6)?,
+            entry_selector: u16at(data, 8)?,
+            range_shift: u16at(data, 10)?,
+            tables,
+        })
+    }
+
+    pub fn rec(&self, tag: &[u8; 4]) -> Option<&TableRec> {
+        self.tables.iter().find(|t| &t.tag == tag)
+    }
+    pub fn has(&self, tag: &[u8; 4]) -> bool {
+        self.rec(tag).is_some()
+    }
+    /// Table bytes (exactly `length` bytes), None when absent or out of bounds.
+    pub fn table(&self, tag: &[u8; 4]) -> Option<&[u8]> {
+        let r = self.rec(tag)?;
+        let s = r.offset as usize;
+        let e = s.checked_add(r.length as usize)?;
+        self.data.get(s..e)
+    }
+    pub fn need_table(&self, tag: &[u8; 4]) -> R<&[u8]> {
+        self.table(tag).ok_or_else(|| format!("table '{}' missing or out of bounds", tag_str(tag)))
+    }
+
+    /// otff "Table Directory": binary-search fields, ascending unique tags, 4-byte aligned
+    /// offsets, tables inside the file, behind the directory and not overlapping.
+    pub fn directory_problems(&self) -> Vec<String> {
+        let mut p = Vec::new();
+        let n = self.tables.len();
+        if n == 0 {
+            p.push("numTables = 0".into());
+            return p;
+        }
+        let es = (usize::BITS - 1 - n.leading_zeros()) as u16; // floor(log2 n)
+        let sr = (1u32 << es) * 16;
+        if self.entry_selector != es {
+            p.push(format!("entrySelector {} != floor(log2({n})) = {es}", self.entry_selector));
+        }
+        if self.search_range as u32 != sr {
+            p.push(format!("searchRange {} != {sr}", self.search_range));
+        }
+        if self.range_shift as u32 != (n as u32) * 16 - sr {
+            p.push(format!("rangeShift {} != {}", self.range_shift, (n as u32) * 16 - sr));
+        }
+        for w in self.tables.windows(2) {
+            if w[0].tag >= w[1].tag {
+                p.push(format!("table records not in ascending tag order: '{}' before '{}'", tag_str(&w[0].tag), tag_str(&w[1].tag)));
+            }
+        }
+        let dir_end = 12 + 16 * n as u64;
+        let mut spans: Vec<(u64, u64, String)> = Vec::new();
+        for t in &self.tables {
+            let s = t.offset as u64;
+            let e = s + t.length as u64;
+            let name = tag_str(&t.tag);
+            if t.offset % 4 != 0 {
+                p.push(format!("table '{name}' offset {s} not 4-byte aligned"));
+            }
+            if s < dir_end {
+                p.push(format!("table '{name}' offset {s} inside the table directory (ends {dir_end})"));
+            }
+            if e > self.data.len() as u64 {
+                p.push(format!("table '{name}' [{s},{e}) beyond file length {}", self.data.len()));
+            }
+            spans.push((s, e, name));
+        }
+        spans.sort();
+        for w in spans.windows(2) {
+            if w[1].0 < w[0].1 && w[0].1 > w[0].0 && w[1].1 > w[1].0 {
+                p.push(format!("tables '{}' and '{}' overlap", w[0].2, w[1].2));
+            }
+        }
+        p
+    }
+
+    /// Directory checksum of every table; `head` is summed with checkSumAdjustment taken as 0.
+    pub fn checksum_problems(&self) -> Vec<String> {
+        let mut p = Vec::new();
+        for t in &self.tables {
+            let Some(bytes) = self.table(&t.tag) else { continue };
+            let want = if &t.tag == b"head" && bytes.len() >= 12 {
+                let mut h = bytes.to_vec();
+                h[8..12].fill(0);
+                table_checksum(&h)
+            } else {
+                table_checksum(bytes)
+            };
+            if want != t.checksum {
+                p.push(format!("table '{}' checksum {:#010x} in directory, computed {:#010x}", tag_str(&t.tag), t.checksum, want));
+            }
+        }
+        p
+    }
+
+    /// Whole-file rule: with head.checkSumAdjustment = 0 the file sums to S and the field
+    /// holds 0xB1B0AFBA - S. Returns (stored, expected).
+    pub fn file_checksum(&self) -> R<(u32, u32)> {
+        let r = self.rec(b"head").ok_or("no head table")?;
+        let o = r.offset as usize + 8;
+        let stored = u32at(&self.data, o)?;
+        let mut d = self.data.clone();
+        d[o..o + 4].fill(0);
+        Ok((stored, 0xB1B0_AFBAu32.wrapping_sub(table_checksum(&d))))
+    }
+}
+
+// ---------------------------------------------------------------------------------------
+// glyph model
+
+#[derive(Clone, Copy, Debug, PartialEq)]
+pub struct Pt {
+    pub x: f64,
+    pub y: f64,
+    pub on: bool,
+}
+pub type Contour = Vec<Pt>;
+/// Flattened outline: contours of (x, y, on-curve) in font units.
+pub type Outline = Vec<Contour>;
+
+#[derive(Clone, Copy, Debug, PartialEq)]
+pub enum CompArgs {
+    /// ARGS_ARE_XY_VALUES: x/y offset
+    Offset(i32, i32),
+    /// point numbers: (point in the compound so far, point in the new component)
+    Points(u16, u16),
+}
+
+#[derive(Clone, Debug, PartialEq)]
+pub struct Component {
+    pub flags: u16,
+    pub gid: u16,
+    pub args: CompArgs,
+    /// a b c d as F2Dot14 raw values: x' = a*x + c*y + dx ; y' = b*x + d*y + dy
+    pub xform: [i16; 4],
+}
+
+#[derive(Clone, Debug, PartialEq)]
+pub enum Glyph {
+    /// zero-length glyph (no outline)
+    Empty,
+    Simple { bbox: [i16; 4], contours: Vec<Vec<(i16, i16, bool)>>, instructions: usize, consumed: usize },
+    Composite { bbox: [i16; 4], components: Vec<Component>, instructions: usize, consumed: usize },
+}
+
+pub const ARG_1_AND_2_ARE_WORDS: u16 = 0x0001;
+pub const ARGS_ARE_XY_VALUES: u16 = 0x0002;
+pub const WE_HAVE_A_SCALE: u16 = 0x0008;
+pub const MORE_COMPONENTS: u16 = 0x0020;
+pub const WE_HAVE_AN_X_AND_Y_SCALE: u16 = 0x0040;
+pub const WE_HAVE_A_TWO_BY_TWO: u16 = 0x0080;
+pub const WE_HAVE_INSTRUCTIONS: u16 = 0x0100;
+pub const USE_MY_METRICS: u16 = 0x0200;
+pub const SCALED_COMPONENT_OFFSET: u16 = 0x0800;
+pub const UNSCALED_COMPONENT_OFFSET: u16 = 0x1000;
+
+/// Decode one glyf entry (the bytes loca assigns to the glyph).
+pub fn decode_glyph(g: &[u8]) -> R<Glyph> {
+    if g.is_empty() {
+        return Ok(Glyph::Empty);
+    }
+    need(g, 0, 10, "glyph header")?;
+    let nc = i16at(g, 0)?;
+    let bbox = [i16at(g, 2)?, i16at(g, 4)?, i16at(g, 6)?, i16at(g, 8)?];
+    if nc >= 0 {
+        let nc = nc as usize;
+        let mut o = 10;
+        let mut ends = Vec::with_capacity(nc);
+        for _ in 0..nc {
+            ends.push(u16at(g, o)? as usize);
+            o += 2;
+        }
+        for w in ends.windows(2) {
+            if w[1] <= w[0] {
+                return Err(format!("endPtsOfContours not increasing: {ends:?}"));
+            }
+        }
+        let ilen = u16at(g, o)? as usize;
+        o += 2;
+        need(g, o, ilen, "instructions")?;
+        o += ilen;
+        let npts = ends.last().map(|e| e + 1).unwrap_or(0);
+        // flags
+        let mut flags = Vec::with_capacity(npts);
+        while flags.len() < npts {
+            let f = u8at(g, o)?;
+            o += 1;
+            flags.push(f);
+            if f & 0x08 != 0 {
+                let rep = u8at(g, o)? as usize;
+                o += 1;
+                for _ in 0..rep {
+                    flags.push(f);
+                }
+            }
+        }
+        if flags.len() != npts {
+            return Err(format!("flag repeat overruns the point count: {} flags for {npts} points", flags.len()));
+        }
+        let mut xs = Vec::with_capacity(npts);
+        let mut v = 0i32;
+        for &f in &flags {
+            if f & 0x02 != 0 {
+                let d = u8at(g, o)? as i32;
+                o += 1;
+                v += if f & 0x10 != 0 { d } else { -d };
+            } else if f & 0x10 == 0 {
+                v += i16at(g, o)? as i32;
+                o += 2;
+            }
+            xs.push(v);
+        }
+        let mut ys = Vec::with_capacity(npts);
+        v = 0;
+        for &f in &flags {
+            if f & 0x04 != 0 {
+                let d = u8at(g, o)? as i32;
+                o += 1;
+                v += if f & 0x20 != 0 { d } else { -d };
+            } else if f & 0x20 == 0 {
+                v += i16at(g, o)? as i32;
+                o += 2;
+            }
+            ys.push(v);
+        }
+        let mut contours = Vec::with_capacity(nc);
+        let mut start = 0;
+        for &e in &ends {
+            let mut c = Vec::with_capacity(e + 1 - start);
+            for i in start..=e {
+                let (x, y) = (xs[i], ys[i]);
+                if x < i16::MIN as i32 || x > i16::MAX as i32 || y < i16::MIN as i32 || y > i16::MAX as i32 {
+                    return Err(format!("point {i} coordinate ({x},{y}) outside int16"));
+                }
+                c.push((x as i16, y as i16, flags[i] & 1 != 0));
+            }
+            contours.push(c);
+            start = e + 1;
+        }
+        Ok(Glyph::Simple { bbox, contours, instructions: ilen, consumed: o })
+    } else {
+        let mut o = 10;
+        let mut components = Vec::new();
+        let mut last_flags;
+        loop {
+            let flags = u16at(g, o)?;
+            let gid = u16at(g, o + 2)?;
+            o += 4;
+            let args = if flags & ARG_1_AND_2_ARE_WORDS != 0 {
+                let (a, b) = (u16at(g, o)?, u16at(g, o + 2)?);
+                o += 4;
+                if flags & ARGS_ARE_XY_VALUES != 0 {
+                    CompArgs::Offset(a as i16 as i32, b as i16 as i32)
+                } else {
+                    CompArgs::Points(a, b)
+                }
+            } else {
+                let (a, b) = (u8at(g, o)?, u8at(g, o + 1)?);
+                o += 2;
+                if flags & ARGS_ARE_XY_VALUES != 0 {
+                    CompArgs::Offset(a as i8 as i32, b as i8 as i32)
+                } else {
+                    CompArgs::Points(a as u16, b as u16)
+                }
+            };
+            const ONE: i16 = 0x4000;
+            let xform = if flags & WE_HAVE_A_SCALE != 0 {
+                let s = i16at(g, o)?;
+                o += 2;
+                [s, 0, 0, s]
+            } else if flags & WE_HAVE_AN_X_AND_Y_SCALE != 0 {
+                let (sx, sy) = (i16at(g, o)?, i16at(g, o + 2)?);
+                o += 4;
+                [sx, 0, 0, sy]
+            } else if flags & WE_HAVE_A_TWO_BY_TWO != 0 {
+                // order in the file: xscale, scale01, scale10, yscale
+                let m = [i16at(g, o)?, i16at(g, o + 2)?, i16at(g, o + 4)?, i16at(g, o + 6)?];
+                o += 8;
+                m
+            } else {
+                [ONE, 0, 0, ONE]
+            };
+            components.push(Component { flags, gid, args, xform });
+            last_flags = flags;
+            if flags & MORE_COMPONENTS == 0 {
+                break;
+            }
+        }
+        let mut ilen = 0;
+        if last_flags & WE_HAVE_INSTRUCTIONS != 0 {
+            ilen = u16at(g, o)? as usize;
+            o += 2;
+            need(g, o, ilen, "composite instructions")?;
+            o += ilen;
+        }
+        Ok(Glyph::Composite { bbox, components, instructions: ilen, consumed: o })
+    }
+}
+
+// ---------------------------------------------------------------------------------------
+// cmap
+
+#[derive(Clone, Debug)]
+pub struct CmapSub {
+    pub platform: u16,
+    pub encoding: u16,
+    pub format: u16,
+    /// offset of the subtable inside the cmap table
+    pub offset: usize,
+}
+
+#[derive(Clone, Debug)]
+pub struct Cmap {
+    pub data: Vec<u8>,
+    pub subs: Vec<CmapSub>,
+}
+
+impl Cmap {
+    pub fn parse(t: &[u8]) -> R<Cmap> {
+        let n = u16at(t, 2)? as usize;
+        let mut subs = Vec::new();
+        for i in 0..n {
+            let o = 4 + 8 * i;
+            let off = u32at(t, o + 4)? as usize;
+            subs.push(CmapSub { platform: u16at(t, o)?, encoding: u16at(t, o + 2)?, format: u16at(t, off)?, offset: off });
+        }
+        Ok(Cmap { data: t.to_vec(), subs })
+    }
+
+    /// Glyph for a code in one subtable (0 = not mapped). Formats 4 and 12.
+    pub fn lookup_in(&self, sub: &CmapSub, code: u32) -> R<u16> {
+        let d = &self.data;
+        let o = sub.offset;
+        match sub.format {
+            4 => {
+                if code > 0xFFFF {
+                    return Ok(0);
+                }
+                let c = code as u16;
+                let segx2 = u16at(d, o + 6)? as usize;
+                let seg = segx2 / 2;
+                let end0 = o + 14;
+                let start0 = end0 + segx2 + 2;
+                let delta0 = start0 + segx2;
+                let range0 = delta0 + segx2;
+                for i in 0..seg {
+                    let end = u16at(d, end0 + 2 * i)?;
+                    if end >= c {
+                        let start = u16at(d, start0 + 2 * i)?;
+                        if start > c {
+                            return Ok(0);
+                        }
+                        let delta = u16at(d, delta0 + 2 * i)?;
+                        let ro = u16at(d, range0 + 2 * i)? as usize;
+                        if ro == 0 {
+                            return Ok(c.wrapping_add(delta));
+                        }
+                        let addr = range0 + 2 * i + ro + 2 * (c - start) as usize;
+                        let g = u16at(d, addr)?;
+                        return Ok(if g == 0 { 0 } else { g.wrapping_add(delta) });
+                    }
+                }
+                Ok(0)
+            }
+            12 => {
+                let ng = u32at(d, o + 12)? as usize;
+                for i in 0..ng {
+                    let g = o + 16 + 12 * i;
+                    let (s, e, sg) = (u32at(d, g)?, u32at(d, g + 4)?, u32at(d, g + 8)?);
+                    if code >= s && code <= e {
+                        let gid = sg + (code - s);
+                        return if gid > 0xFFFF { Err(format!("format 12 glyph {gid} > 65535")) } else { Ok(gid as u16) };
+                    }
+                }
+                Ok(0)
+            }
+            f => Err(format!("cmap format {f} not supported by the reference reader")),
+        }
+    }
+
+    /// Every (code, glyph != 0) pair of a subtable, ascending by code.
+    pub fn mappings(&self, sub: &CmapSub) -> R<Vec<(u32, u16)>> {
+        let d = &self.data;
+        let o = sub.offset;
+        let mut out = Vec::new();
+        match sub.format {
+            4 => {
+                let segx2 = u16at(d, o + 6)? as usize;
+                let end0 = o + 14;
+                let start0 = end0 + segx2 + 2;
+                for i in 0..segx2 / 2 {
+                    let end = u16at(d, end0 + 2 * i)? as u32;
+                    let start = u16at(d, start0 + 2 * i)? as u32;
+                    for c in start..=end {
+                        let g = self.lookup_in(sub, c)?;
+                        if g != 0 {
+                            out.push((c, g));
+                        }
+                    }
+                }
+            }
+            12 => {
+                let ng = u32at(d, o + 12)? as usize;
+                for i in 0..ng {
+                    let g = o + 16 + 12 * i;
+                    let (s, e, sg) = (u32at(d, g)?, u32at(d, g + 4)?, u32at(d, g + 8)?);
+                    for c in s..=e {
+                        let gid = sg + (c - s);
+                        if gid != 0 {
+                            out.push((c, gid as u16));
+                        }
+                    }
+                }
+            }
+            f => return Err(format!("cmap format {f} not supported")),
+        }
+        out.sort();
+        Ok(out)
+    }
+
+    /// The Unicode subtable a consumer would use: full-repertoire (3,10)/(0,4)/(0,6) first,
+    /// then BMP (3,1)/(0,0..3); only formats 4 and 12 are considered.
+    pub fn unicode_sub(&self) -> Option<&CmapSub> {
+        let rank = |s: &CmapSub| -> Option<u8> {
+            if s.format != 4 && s.format != 12 {
+                return None;
+            }
+            match (s.platform, s.encoding) {
+                (3, 10) => Some(0),
+                (0, 4) | (0, 6) => Some(1),
+                (3, 1) => Some(2),
+                (0, 0..=3) => Some(3),
+                _ => None,
+            }
+        };
+        self.subs.iter().filter_map(|s| rank(s).map(|r| (r, s))).min_by_key(|(r, _)| *r).map(|(_, s)| s)
+    }
+
+    /// Glyph the font maps a Unicode scalar to (0 = not mapped).
+    pub fn unicode_lookup(&self, cp: u32) -> R<u16> {
+        let s = self.unicode_sub().ok_or("no Unicode cmap subtable (format 4/12)")?;
+        self.lookup_in(s, cp)
+    }
+}
+
+// ---------------------------------------------------------------------------------------
+// Font
+
+#[derive(Clone, Debug)]
+pub struct Font {
+    pub sfnt: Sfnt,
+    pub units_per_em: u16,
+    pub index_to_loc_format: i16,
+    pub num_glyphs: u16,
+    pub num_h_metrics: u16,
+    /// numGlyphs+1 byte offsets into glyf (present for glyf-flavoured fonts)
+    pub loca: Option<Vec<u32>>,
+}
+
+impl Font {
+    pub fn parse(data: &[u8]) -> R<Font> {
+        let sfnt = Sfnt::parse(data)?;
+        let head = sfnt.need_table(b"head")?;
+        need(head, 0, 54, "head")?;
+        if u32at(head, 12)? != 0x5F0F_3CF5 {
+            return Err(format!("head.magicNumber {:#010x}", u32at(head, 12)?));
+        }
+        let units_per_em = u16at(head, 18)?;
+        let index_to_loc_format = i16at(head, 50)?;
+        let maxp = sfnt.need_table(b"maxp")?;
+        let num_glyphs = u16at(maxp, 4)?;
+        let hhea = sfnt.need_table(b"hhea")?;
+        need(hhea, 0, 36, "hhea")?;
+        let num_h_metrics = u16at(hhea, 34)?;
+        let loca = if sfnt.has(b"glyf") {
+            let l = sfnt.need_table(b"loca")?;
+            let n = num_glyphs as usize + 1;
+            let mut v = Vec::with_capacity(n);
+            match index_to_loc_format {
+                0 => {
+                    for i in 0..n {
+                        v.push(u16at(l, 2 * i).map_err(|e| format!("loca (short) entry {i}: {e}"))? as u32 * 2);
+                    }
+                }
+                1 => {
+                    for i in 0..n {
+                        v.push(u32at(l, 4 * i).map_err(|e| format!("loca (long) entry {i}: {e}"))?);
+                    }
+                }
+                f => return Err(format!("head.indexToLocFormat = {f}")),
+            }
+            Some(v)
+        } else {
+            None
+        };
+        Ok(Font { sfnt, units_per_em, index_to_loc_format, num_glyphs, num_h_metrics, loca })
+    }
+
+    pub fn is_glyf(&self) -> bool {
+        self.loca.is_some()
+    }
+
+    /// hmtx: advance width of a glyph (glyphs past numberOfHMetrics repeat the last one).
+    pub fn advance(&self, gid: u16) -> R<u16> {
+        if gid >= self.num_glyphs {
+            return Err(format!("glyph {gid} >= numGlyphs {}", self.num_glyphs));
+        }
+        if self.num_h_metrics == 0 {
+            return Err("hhea.numberOfHMetrics = 0".into());
+        }
+        let h = self.sfnt.need_table(b"hmtx")?;
+        let i = gid.min(self.num_h_metrics - 1) as usize;
+        u16at(h, 4 * i).map_err(|e| format!("hmtx advance of glyph {gid}: {e}"))
+    }
+    pub fn lsb(&self, gid: u16) -> R<i16> {
+        if gid >= self.num_glyphs {
+            return Err(format!("glyph {gid} >= numGlyphs {}", self.num_glyphs));
+        }
+        let h = self.sfnt.need_table(b"hmtx")?;
+        let n = self.num_h_metrics as usize;
+        let g = gid as usize;
+        if g < n {
+            i16at(h, 4 * g + 2)
+        } else {
+            i16at(h, 4 * n + 2 * (g - n))
+        }
+    }
+
+    /// Bytes loca assigns to a glyph.
+    pub fn glyph_bytes(&self, gid: u16) -> R<&[u8]> {
+        let loca = self.loca.as_ref().ok_or("font has no glyf/loca")?;
+        if gid >= self.num_glyphs {
+            return Err(format!("glyph {gid} >= numGlyphs {}", self.num_glyphs));
+        }
+        let (s, e) = (loca[gid as usize] as usize, loca[gid as usize + 1] as usize);
+        if e < s {
+            return Err(format!("loca not monotone at glyph {gid}: {s} > {e}"));
+        }
+        let glyf = self.sfnt.need_table(b"glyf")?;
+        glyf.get(s..e).ok_or_else(|| format!("glyph {gid} [{s},{e}) beyond glyf length {}", glyf.len()))
+    }
+    pub fn glyph(&self, gid: u16) -> R<Glyph> {
+        decode_glyph(self.glyph_bytes(gid)?).map_err(|e| format!("glyph {gid}: {e}"))
+    }
+
+    /// Outline with composites resolved recursively under the component transforms.
+    pub fn flatten(&self, gid: u16) -> R<Outline> {
+        let mut stack = Vec::new();
+        self.flatten_rec(gid, &mut stack)
+    }
+
+    fn flatten_rec(&self, gid: u16, stack: &mut Vec<u16>) -> R<Outline> {
+        if stack.contains(&gid) {
+            return Err(format!("composite cycle through glyph {gid}: {stack:?}"));
+        }
+        if stack.len() > 32 {
+            return Err(format!("composite nesting deeper than 32: {stack:?}"));
+        }
+        match self.glyph(gid)? {
+            Glyph::Empty => Ok(Vec::new()),
+            Glyph::Simple { contours, .. } => Ok(contours
+                .into_iter()
+                .map(|c| c.into_iter().map(|(x, y, on)| Pt { x: x as f64, y: y as f64, on }).collect())
+                .collect()),
+            Glyph::Composite { components, .. } => {
+                stack.push(gid);
+                let mut out: Outline = Vec::new();
+                for comp in &components {
+                    let child = self.flatten_rec(comp.gid, stack).map_err(|e| format!("component {} of {gid}: {e}", comp.gid))?;
+                    let f = |v: i16| v as f64 / 16384.0;
+                    let (a, b, c, d) = (f(comp.xform[0]), f(comp.xform[1]), f(comp.xform[2]), f(comp.xform[3]));
+                    let mut tc: Outline = child
+                        .iter()
+                        .map(|ct| ct.iter().map(|p| Pt { x: a * p.x + c * p.y, y: b * p.x + d * p.y, on: p.on }).collect())
+                        .collect();
+                    let (dx, dy) = match comp.args {
+                        CompArgs::Offset(x, y) => {
+                            let (x, y) = (x as f64, y as f64);
+                            if comp.flags & SCALED_COMPONENT_OFFSET != 0 && comp.flags & UNSCALED_COMPONENT_OFFSET == 0 {
+                                // offset vector goes through the component's matrix as well
+                                (a * x + c * y, b * x + d * y)
+                            } else {
+                                (x, y)
+                            }
+                        }
+                        CompArgs::Points(pp, cp) => {
+                            let parent = out.iter().flatten().nth(pp as usize).copied().ok_or_else(|| {
+                                format!("glyph {gid}: matching point {pp} not in the compound so far")
+                            })?;
+                            let ch = tc.iter().flatten().nth(cp as usize).copied().ok_or_else(|| {
+                                format!("glyph {gid}: matching point {cp} not in component {}", comp.gid)
+                            })?;
+                            (parent.x - ch.x, parent.y - ch.y)
+                        }
+                    };
+                    for ct in tc.iter_mut() {
+                        for p in ct.iter_mut() {
+                            p.x += dx;
+                            p.y += dy;
+                        }
+                    }
+                    out.extend(tc);
+                }
+                stack.pop();
+                Ok(out)
+            }
+        }
+    }
+
+    /// Every glyph reachable from `gid` through composite references (including itself).
+    pub fn closure(&self, gid: u16) -> R<Vec<u16>> {
+        let mut seen = vec![gid];
+        let mut i = 0;
+        while i < seen.len() {
+            if let Glyph::Composite { components, .. } = self.glyph(seen[i])? {
+                for c in components {
+                    if !seen.contains(&c.gid) {
+                        if seen.len() > 4096 {
+                            return Err("composite closure too large".into());
+                        }
+                        seen.push(c.gid);
+                    }
+                }
+            }
+            i += 1;
+        }
+        Ok(seen)
+    }
+
+    pub fn cmap(&self) -> R<Cmap> {
+        Cmap::parse(self.sfnt.need_table(b"cmap")?)
+    }
+
+    /// Cross-table consistency required of a glyf-flavoured font: loca length and
+    /// monotonicity, last offset inside glyf, short offsets even, hmtx length, metric counts.
+    pub fn structure_problems(&self) -> Vec<String> {
+        let mut p = Vec::new();
+        let n = self.num_glyphs as usize;
+        if n == 0 {
+            p.push("maxp.numGlyphs = 0".into());
+        }
+        if let Some(loca) = &self.loca {
+            let lt = self.sfnt.table(b"loca").map(|t| t.len()).unwrap_or(0);
+            let want = (n + 1) * if self.index_to_loc_format == 0 { 2 } else { 4 };
+            if lt != want {
+                p.push(format!("loca length {lt} != (numGlyphs+1) entries = {want}"));
+            }
+            for (i, w) in loca.windows(2).enumerate() {
+                if w[1] < w[0] {
+                    p.push(format!("loca not monotone at glyph {i}: {} > {}", w[0], w[1]));
+                    break;
+                }
+            }
+            let gl = self.sfnt.table(b"glyf").map(|t| t.len()).unwrap_or(0);
+            if let Some(&last) = loca.last() {
+                if last as usize > gl {
+                    p.push(format!("last loca offset {last} beyond glyf length {gl}"));
+                }
+            }
+        }
+        let nh = self.num_h_metrics as usize;
+        if nh == 0 || nh > n {
+            p.push(format!("hhea.numberOfHMetrics {nh} not in 1..=numGlyphs {n}"));
+        } else {
+            let ht = self.sfnt.table(b"hmtx").map(|t| t.len()).unwrap_or(0);
+            let want = 4 * nh + 2 * (n - nh);
+            if ht < want {
+                p.push(format!("hmtx length {ht} < 4*numberOfHMetrics + 2*(numGlyphs-numberOfHMetrics) = {want}"));
+            }
+        }
+        if let Some(maxp) = self.sfnt.table(b"maxp") {
+            let v = u32at(maxp, 0).unwrap_or(0);
+            let want_len = if v == 0x0001_0000 { 32 } else { 6 };
+            if maxp.len() < want_len {
+                p.push(format!("maxp version {v:#x} length {} < {want_len}", maxp.len()));
+            }
+        }
+        p
+    }
+}
+
+/// Order-preserving hash input of an outline (bit patterns of the coordinates).
+pub fn outline_words(o: &Outline) -> Vec<u64> {
+    let mut w = Vec::new();
+    for c in o {
+        w.push(0xC0C0_C0C0_0000_0000 | c.len() as u64);
+        for p in c {
+            w.push(p.x.to_bits());
+            w.push(p.y.to_bits());
+            w.push(p.on as u64);
+        }
+    }
+    w
+}
+
+/// First difference between two outlines, None when equal.
+pub fn outline_diff(a: &Outline, b: &Outline) -> Option<String> {
+    if a.len() != b.len() {
+        return Some(format!("{} contours vs {}", a.len(), b.len()));
+    }
+    for (i, (ca, cb)) in a.iter().zip(b).enumerate() {
+        if ca.len() != cb.len() {
+            return Some(format!("contour {i}: {} points vs {}", ca.len(), cb.len()));
+        }
+        for (j, (pa, pb)) in ca.iter().zip(cb).enumerate() {
+            if pa != pb {
+                return Some(format!("contour {i} point {j}: ({},{},{}) vs ({},{},{})", pa.x, pa.y, pa.on, pb.x, pb.y, pb.on));
+            }
+        }
+    }
+    None
+}
+
+// ---------------------------------------------------------------------------------------
+// synthetic TrueType fonts
+
+pub mod synth {
+    //! Writer for small TrueType fonts (<= a handful of glyphs) used as check inputs:
+    //! simple and composite glyphs with every argument / transform form, optional
+    //! instructions, short or long loca, shared trailing advance widths, cmap format 4
+    //! (+ optional format 12), correct checksums. `expected_outline` computes the
+    //! flattened outline directly from the specification, without going through bytes.
+    use super::*;
+
+    #[derive(Clone, Debug)]
+    pub enum Arg {
+        XyBytes(i8, i8),
+        XyWords(i16, i16),
+        PtBytes(u8, u8),
+        PtWords(u16, u16),
+    }
+    #[derive(Clone, Debug)]
+    pub enum Xform {
+        None,
+        Scale(i16),
+        XY(i16, i16),
+        /// xscale, scale01, scale10, yscale
+        TwoByTwo(i16, i16, i16, i16),
+    }
+    #[derive(Clone, Debug)]
+    pub struct Comp {
+        pub gid: u16,
+        pub arg: Arg,
+        pub xform: Xform,
+        /// extra flag bits OR-ed in (USE_MY_METRICS, SCALED/UNSCALED_COMPONENT_OFFSET, ROUND_XY_TO_GRID ...)
+        pub extra_flags: u16,
+    }
+    #[derive(Clone, Debug)]
+    pub enum Body {
+        Empty,
+        Simple { contours: Vec<Vec<(i16, i16, bool)>>, instructions: Vec<u8> },
+        Composite { comps: Vec<Comp>, instructions: Vec<u8> },
+    }
+    #[derive(Clone, Debug)]
+    pub struct SGlyph {
+        pub advance: u16,
+        pub lsb: i16,
+        pub body: Body,
+    }
+    #[derive(Clone, Debug)]
+    pub struct SFont {
+        pub units_per_em: u16,
+        pub long_loca: bool,
+        pub glyphs: Vec<SGlyph>,
+        /// hhea.numberOfHMetrics (1..=glyphs.len()); glyphs past it share the last advance
+        pub num_h_metrics: u16,
+        /// (code point, gid), any order; format 4 gets the BMP part, format 12 (if `cmap12`) all
+        pub cmap: Vec<(u32, u16)>,
+        pub cmap12: bool,
+        /// length of an extra private table 'zzzz' (to push the file past a size threshold)
+        pub pad_table: usize,
+    }
+
+    impl SFont {
+        /// Advance the written font declares for a glyph.
+        pub fn file_advance(&self, gid: u16) -> u16 {
+            let i = (gid as usize).min(self.num_h_metrics as usize - 1);
+            self.glyphs[i].advance
+        }
+
+        /// Flattened outline computed from the specification.
+        pub fn expected_outline(&self, gid: u16) -> R<Outline> {
+            self.exp_rec(gid, 0)
+        }
+        fn exp_rec(&self, gid: u16, depth: usize) -> R<Outline> {
+            if depth > 32 {
+                return Err("too deep".into());
+            }
+            let g = self.glyphs.get(gid as usize).ok_or(format!("no glyph {gid}"))?;
+            match &g.body {
+                Body::Empty => Ok(vec![]),
+                Body::Simple { contours, .. } => Ok(contours
+                    .iter()
+                    .map(|c| c.iter().map(|&(x, y, on)| Pt { x: x as f64, y: y as f64, on }).collect())
+                    .collect()),
+                Body::Composite { comps, .. } => {
+                    let mut out: Outline = vec![];
+                    for c in comps {
+                        let child = self.exp_rec(c.gid, depth + 1)?;
+                        let q = |v: i16| v as f64 / 16384.0;
+                        let (a, b, cc, d) = match c.xform {
+                            Xform::None => (1.0, 0.0, 0.0, 1.0),
+                            Xform::Scale(s) => (q(s), 0.0, 0.0, q(s)),
+                            Xform::XY(sx, sy) => (q(sx), 0.0, 0.0, q(sy)),
+                            Xform::TwoByTwo(m0, m1, m2, m3) => (q(m0), q(m1), q(m2), q(m3)),
+                        };
+                        let mut t: Outline = child
+                            .iter()
+                            .map(|ct| ct.iter().map(|p| Pt { x: a * p.x + cc * p.y, y: b * p.x + d * p.y, on: p.on }).collect())
+                            .collect();
+                        let scaled = c.extra_flags & SCALED_COMPONENT_OFFSET != 0 && c.extra_flags & UNSCALED_COMPONENT_OFFSET == 0;
+                        let (dx, dy) = match c.arg {
+                            Arg::XyBytes(x, y) => (x as f64, y as f64),
+                            Arg::XyWords(x, y) => (x as f64, y as f64),
+                            Arg::PtBytes(p, q2) => {
+                                let pp = out.iter().flatten().nth(p as usize).copied().ok_or("bad parent point")?;
+                                let cp = t.iter().flatten().nth(q2 as usize).copied().ok_or("bad child point")?;
+                                (pp.x - cp.x, pp.y - cp.y)
+                            }
+                            Arg::PtWords(p, q2) => {
+                                let pp = out.iter().flatten().nth(p as usize).copied().ok_or("bad parent point")?;
+                                let cp = t.iter().flatten().nth(q2 as usize).copied().ok_or("bad child point")?;
+                                (pp.x - cp.x, pp.y - cp.y)
+                            }
+                        };
+                        let is_xy = matches!(c.arg, Arg::XyBytes(..) | Arg::XyWords(..));
+                        let (dx, dy) = if is_xy && scaled { (a * dx + cc * dy, b * dx + d * dy) } else { (dx, dy) };
+                        for ct in t.iter_mut() {
+                            for p in ct.iter_mut() {
+                                p.x += dx;
+                                p.y += dy;
+                            }
+                        }
+                        out.extend(t);
+                    }
+                    Ok(out)
+                }
+            }
+        }
+
+        fn bbox(&self, gid: u16) -> [i16; 4] {
+            let o = self.expected_outline(gid).unwrap_or_default();
+            let pts: Vec<&Pt> = o.iter().flatten().collect();
+            if pts.is_empty() {
+                return [0; 4];
+            }
+            let f = |it: &mut dyn Iterator<Item = f64>, max: bool| -> i16 {
+                let v = if max { it.fold(f64::MIN, f64::max).ceil() } else { it.fold(f64::MAX, f64::min).floor() };
+                v as i16
+            };
+            [
+                f(&mut pts.iter().map(|p| p.x), false),
+                f(&mut pts.iter().map(|p| p.y), false),
+                f(&mut pts.iter().map(|p| p.x), true),
+                f(&mut pts.iter().map(|p| p.y), true),
+            ]
+        }
+
+        fn glyph_bytes(&self, gid: u16) -> Vec<u8> {
+            let g = &self.glyphs[gid as usize];
+            let mut o = Vec::new();
+            let bb = self.bbox(gid);
+            match &g.body {
+                Body::Empty => {}
+                Body::Simple { contours, instructions } => {
+                    o.extend((contours.len() as i16).to_be_bytes());
+                    for v in bb {
+                        o.extend(v.to_be_bytes());
+                    }
+                    let mut e = 0usize;
+                    for c in contours {
+                        e += c.len();
+                        o.extend(((e - 1) as u16).to_be_bytes());
+                    }
+                    o.extend((instructions.len() as u16).to_be_bytes());
+                    o.extend(instructions);
+                    // flags / coordinates: short vectors when they fit, "same" when delta is 0,
+                    // repeat counts for runs of equal flags
+                    let pts: Vec<(i16, i16, bool)> = contours.iter().flatten().copied().collect();
+                    let mut flags = Vec::new();
+                    let mut xb = Vec::new();
+                    let mut yb = Vec::new();
+                    let (mut px, mut py) = (0i32, 0i32);
+                    for &(x, y, on) in &pts {
+                        let mut f = on as u8;
+                        let dx = x as i32 - px;
+                        let dy = y as i32 - py;
+                        if dx == 0 {
+                            f |= 0x10;
+                        } else if dx.abs() < 256 {
+                            f |= 0x02 | if dx > 0 { 0x10 } else { 0 };
+                            xb.push(dx.unsigned_abs() as u8);
+                        } else {
+                            xb.extend((dx as i16).to_be_bytes());
+                        }
+                        if dy == 0 {
+                            f |= 0x20;
+                        } else if dy.abs() < 256 {
+                            f |= 0x04 | if dy > 0 { 0x20 } else { 0 };
+                            yb.push(dy.unsigned_abs() as u8);
+                        } else {
+                            yb.extend((dy as i16).to_be_bytes());
+                        }
+                        flags.push(f);
+                        px = x as i32;
+                        py = y as i32;
+                    }
+                    let mut i = 0;
+                    while i < flags.len() {
+                        let f = flags[i];
+                        let mut run = 1;
+                        while i + run < flags.len() && flags[i + run] == f && run < 256 {
+                            run += 1;
+                        }
+                        if run >= 3 {
+                            o.push(f | 0x08);
+                            o.push((run - 1) as u8);
+                        } else {
+                            for _ in 0..run {
+                                o.push(f);
+                            }
+                        }
+                        i += run;
+                    }
+                    o.extend(xb);
+                    o.extend(yb);
+                }
+                Body::Composite { comps, instructions } => {
+                    o.extend((-1i16).to_be_bytes());
+                    for v in bb {
+                        o.extend(v.to_be_bytes());
+                    }
+                    for (i, c) in comps.iter().enumerate() {
+                        let mut f = c.extra_flags;
+                        if i + 1 < comps.len() {
+                            f |= MORE_COMPONENTS;
+                        } else if !instructions.is_empty() {
+                            f |= WE_HAVE_INSTRUCTIONS;
+                        }
+                        let mut ab = Vec::new();
+                        match c.arg {
+                            Arg::XyBytes(x, y) => {
+                                f |= ARGS_ARE_XY_VALUES;
+                                ab.push(x as u8);
+                                ab.push(y as u8);
+                            }
+                            Arg::XyWords(x, y) => {
+                                f |= ARGS_ARE_XY_VALUES | ARG_1_AND_2_ARE_WORDS;
+                                ab.extend(x.to_be_bytes());
+                                ab.extend(y.to_be_bytes());
+                            }
+                            Arg::PtBytes(p, q) => {
+                                ab.push(p);
+                                ab.push(q);
+                            }
+                            Arg::PtWords(p, q) => {
+                                f |= ARG_1_AND_2_ARE_WORDS;
+                                ab.extend(p.to_be_bytes());
+                                ab.extend(q.to_be_bytes());
+                            }
+                        }
+                        let mut tb = Vec::new();
+                        match c.xform {
+                            Xform::None => {}
+                            Xform::Scale(s) => {
+                                f |= WE_HAVE_A_SCALE;
+                                tb.extend(s.to_be_bytes());
+                            }
+                            Xform::XY(a, d) => {
+                                f |= WE_HAVE_AN_X_AND_Y_SCALE;
+                                tb.extend(a.to_be_bytes());
+                                tb.extend(d.to_be_bytes());
+                            }
+                            Xform::TwoByTwo(a, b, c2, d) => {
+                                f |= WE_HAVE_A_TWO_BY_TWO;
+                                for v in [a, b, c2, d] {
+                                    tb.extend(v.to_be_bytes());
+                                }
+                            }
+                        }
+                        o.extend(f.to_be_bytes());
+                        o.extend(c.gid.to_be_bytes());
+                        o.extend(ab);
+                        o.extend(tb);
+                    }
+                    if !instructions.is_empty() {
+                        o.extend((instructions.len() as u16).to_be_bytes());
+                        o.extend(instructions);
+                    }
+                }
+            }
+            o
+        }
+
+        fn cmap_table(&self) -> Vec<u8> {
+            let mut m: Vec<(u32, u16)> = self.cmap.clone();
+            m.sort();
+            m.dedup_by_key(|e| e.0);
+            // format 4: one segment per run of consecutive codes with consecutive glyphs
+            let bmp: Vec<(u16, u16)> = m.iter().filter(|e| e.0 < 0xFFFF).map(|e| (e.0 as u16, e.1)).collect();
+            let mut segs: Vec<(u16, u16, u16)> = Vec::new(); // start, end, delta
+            for &(c, g) in &bmp {
+                let delta = g.wrapping_sub(c);
+                match segs.last_mut() {
+                    Some(s) if s.1.wrapping_add(1) == c && s.2 == delta => s.1 = c,
+                    _ => segs.push((c, c, delta)),
+                }
+            }
+            segs.push((0xFFFF, 0xFFFF, 1));
+            let n = segs.len();
+            let mut f4 = Vec::new();
+            f4.extend(4u16.to_be_bytes());
+            f4.extend(((16 + 8 * n) as u16).to_be_bytes());
+            f4.extend(0u16.to_be_bytes());
+            f4.extend(((2 * n) as u16).to_be_bytes());
+            let es = (usize::BITS - 1 - n.leading_zeros()) as u16;
+            let sr = 2 * (1u16 << es);
+            f4.extend(sr.to_be_bytes());
+            f4.extend(es.to_be_bytes());
+            f4.extend(((2 * n) as u16 - sr).to_be_bytes());
+            for s in &segs {
+                f4.extend(s.1.to_be_bytes());
+            }
+            f4.extend(0u16.to_be_bytes());
+            for s in &segs {
+                f4.extend(s.0.to_be_bytes());
+            }
+            for s in &segs {
+                f4.extend(s.2.to_be_bytes());
+            }
+            for _ in &segs {
+                f4.extend(0u16.to_be_bytes());
+            }
+            let mut f12 = Vec::new();
+            if self.cmap12 {
+                let mut groups: Vec<(u32, u32, u32)> = Vec::new();
+                for &(c, g) in &m {
+                    match groups.last_mut() {
+                        Some(gr) if gr.1 + 1 == c && gr.2 + (gr.1 - gr.0) + 1 == g as u32 => gr.1 = c,
+                        _ => groups.push((c, c, g as u32)),
+                    }
+                }
+                f12.extend(12u16.to_be_bytes());
+                f12.extend(0u16.to_be_bytes());
+                f12.extend(((16 + 12 * groups.len()) as u32).to_be_bytes());
+                f12.extend(0u32.to_be_bytes());
+                f12.extend((groups.len() as u32).to_be_bytes());
+                for g in groups {
+                    f12.extend(g.0.to_be_bytes());
+                    f12.extend(g.1.to_be_bytes());
+                    f12.extend(g.2.to_be_bytes());
+                }
+            }
+            let nsub = if self.cmap12 { 2u16 } else { 1 };
+            let mut t = Vec::new();
+            t.extend(0u16.to_be_bytes());
+            t.extend(nsub.to_be_bytes());
+            let first = 4 + 8 * nsub as u32;
+            t.extend(3u16.to_be_bytes());
+            t.extend(1u16.to_be_bytes());
+            t.extend(first.to_be_bytes());
+            if self.cmap12 {
+                t.extend(3u16.to_be_bytes());
+                t.extend(10u16.to_be_bytes());
+                t.extend((first + f4.len() as u32).to_be_bytes());
+            }
+            t.extend(f4);
+            t.extend(f12);
+            t
+        }
+
+        /// Serialise to a complete .ttf file.
+        pub fn build(&self) -> Vec<u8> {
+            let n = self.glyphs.len();
+            assert!(n >= 1 && self.num_h_metrics >= 1 && self.num_h_metrics as usize <= n);
+            // glyf + loca
+            let mut glyf = Vec::new();
+            let mut offs = Vec::with_capacity(n + 1);
+            for g in 0..n {
+                offs.push(glyf.len() as u32);
+                glyf.extend(self.glyph_bytes(g as u16));
+                // short loca needs even offsets; long loca fonts are padded to 4 like most tools do
+                let al = if self.long_loca { 4 } else { 2 };
+                while glyf.len() % al != 0 {
+                    glyf.push(0);
+                }
+            }
+            offs.push(glyf.len() as u32);
+            let mut loca = Vec::new();
+            for &o in &offs {
+                if self.long_loca {
+                    loca.extend(o.to_be_bytes());
+                } else {
+                    assert!(o % 2 == 0 && o / 2 <= 0xFFFF);
+                    loca.extend(((o / 2) as u16).to_be_bytes());
+                }
+            }
+            // hmtx
+            let nh = self.num_h_metrics as usize;
+            let mut hmtx = Vec::new();
+            for (i, g) in self.glyphs.iter().enumerate() {
+                if i < nh {
+                    hmtx.extend(g.advance.to_be_bytes());
+                }
+                hmtx.extend(g.lsb.to_be_bytes());
+            }
+            // font bbox
+            let mut fb = [i16::MAX, i16::MAX, i16::MIN, i16::MIN];
+            for g in 0..n {
+                if !matches!(self.glyphs[g].body, Body::Empty) {
+                    let b = self.bbox(g as u16);
+                    fb = [fb[0].min(b[0]), fb[1].min(b[1]), fb[2].max(b[2]), fb[3].max(b[3])];
+                }
+            }
+            if fb[0] == i16::MAX {
+                fb = [0; 4];
+            }
+            // head
+            let mut head = Vec::new();
+            head.extend(0x0001_0000u32.to_be_bytes()); // version
+            head.extend(0x0001_0000u32.to_be_bytes()); // fontRevision
+            head.extend(0u32.to_be_bytes()); // checkSumAdjustment (filled in last)
+            head.extend(0x5F0F_3CF5u32.to_be_bytes());
+            head.extend(0x000Bu16.to_be_bytes()); // flags
+            head.extend(self.units_per_em.to_be_bytes());
+            head.extend([0u8; 16]); // created, modified
+            for v in fb {
+                head.extend(v.to_be_bytes());
+            }
+            head.extend(0u16.to_be_bytes()); // macStyle
+            head.extend(8u16.to_be_bytes()); // lowestRecPPEM
+            head.extend(2i16.to_be_bytes()); // fontDirectionHint
+            head.extend((self.long_loca as i16).to_be_bytes());
+            head.extend(0i16.to_be_bytes()); // glyphDataFormat
+            assert_eq!(head.len(), 54);
+            // hhea
+            let mut hhea = Vec::new();
+            hhea.extend(0x0001_0000u32.to_be_bytes());
+            hhea.extend(fb[3].max(0).to_be_bytes()); // ascender
+            hhea.extend(fb[1].min(0).to_be_bytes()); // descender
+            hhea.extend(0i16.to_be_bytes()); // lineGap
+            hhea.extend(self.glyphs.iter().map(|g| g.advance).max().unwrap_or(0).to_be_bytes());
+            hhea.extend([0u8; 6]); // minLSB, minRSB, xMaxExtent
+            hhea.extend(1i16.to_be_bytes()); // caretSlopeRise
+            hhea.extend([0u8; 12]); // caretSlopeRun, caretOffset, 4 reserved
+            hhea.extend(0i16.to_be_bytes()); // metricDataFormat
+            hhea.extend(self.num_h_metrics.to_be_bytes());
+            assert_eq!(hhea.len(), 36);
+            // maxp 1.0
+            let mut maxp = Vec::new();
+            maxp.extend(0x0001_0000u32.to_be_bytes());
+            maxp.extend((n as u16).to_be_bytes());
+            for v in [64u16, 8, 128, 16, 2, 0, 0, 0, 0, 64, 64, 8, 4] {
+                maxp.extend(v.to_be_bytes());
+            }
+            assert_eq!(maxp.len(), 32);
+            // post 3.0
+            let mut post = Vec::new();
+            post.extend(0x0003_0000u32.to_be_bytes());
+            post.extend([0u8; 28]);
+            // name: one record (postscript name, Mac Roman)
+            let psname = b"VerifSynth";
+            let mut name = Vec::new();
+            name.extend(0u16.to_be_bytes());
+            name.extend(1u16.to_be_bytes());
+            name.extend(18u16.to_be_bytes());
+            for v in [1u16, 0, 0, 6, psname.len() as u16, 0] {
+                name.extend(v.to_be_bytes());
+            }
+            name.extend(psname);
+            let cmap = self.cmap_table();
+            let mut tables: Vec<([u8; 4], Vec<u8>)> = vec![
+                (*b"cmap", cmap),
+                (*b"glyf", glyf),
+                (*b"head", head),
+                (*b"hhea", hhea),
+                (*b"hmtx", hmtx),
+                (*b"loca", loca),
+                (*b"maxp", maxp),
+                (*b"name", name),
+                (*b"post", post),
+            ];
+            if self.pad_table > 0 {
+                let pad: Vec<u8> = (0..self.pad_table).map(|i| (i * 31 % 251) as u8).collect();
+                tables.push((*b"zzzz", pad));
+            }
+            tables.sort_by(|a, b| a.0.cmp(&b.0));
+            assemble_sfnt(0x0001_0000, &tables)
+        }
+    }
+
+    /// Lay out an sfnt from (tag, bytes) pairs given in ascending tag order, computing all
+    /// checksums and head.checkSumAdjustment.
+    pub fn assemble_sfnt(version: u32, tables: &[([u8; 4], Vec<u8>)]) -> Vec<u8> {
+        let n = tables.len();
+        let es = (usize::BITS - 1 - n.leading_zeros()) as u16;
+        let sr = (1u16 << es) * 16;
+        let mut out = Vec::new();
+        out.extend(version.to_be_bytes());
+        out.extend((n as u16).to_be_bytes());
+        out.extend(sr.to_be_bytes());
+        out.extend(es.to_be_bytes());
+        out.extend(((n as u16) * 16 - sr).to_be_bytes());
+        let mut off = 12 + 16 * n;
+        let mut head_off = None;
+        for (tag, data) in tables {
+            out.extend(tag);
+            out.extend(table_checksum(data).to_be_bytes());
+            out.extend((off as u32).to_be_bytes());
+            out.extend((data.len() as u32).to_be_bytes());
+            if tag == b"head" {
+                head_off = Some(off);
+            }
+            off += (data.len() + 3) & !3;
+        }
+        for (_, data) in tables {
+            out.extend(data);
+            while out.len() % 4 != 0 {
+                out.push(0);
+            }
+        }
+        if let Some(h) = head_off {
+            let adj = 0xB1B0_AFBAu32.wrapping_sub(table_checksum(&out));
+            out[h + 8..h + 12].copy_from_slice(&adj.to_be_bytes());
+        }
+        out
+    }
+}
+
+#[cfg(test)]
+mod tests {
+    use super::synth::*;
+    use super::*;
+
+    fn bundled(name: &str) -> Vec<u8> {
+        let root = std::env::var("VERIF_REPO").unwrap_or_else(|_| "/repo".into());
+        std::fs::read(format!("{root}/test-pdfs/{name}")).expect("bundled font")
+    }
+
+    #[test]
+    fn checksum_rule_small() {
+        assert_eq!(table_checksum(&[0, 1, 2, 3, 4, 5]), 0x00010203u32.wrapping_add(0x04050000));
+        assert_eq!(table_checksum(&[0xFF; 8]), 0xFFFF_FFFE);
+    }
+
+    fn check_sfnt(name: &str) -> Font {
+        let data = bundled(name);
+        let f = Font::parse(&data).unwrap();
+        assert_eq!(f.sfnt.directory_problems(), Vec::<String>::new(), "{name} directory");
+        assert_eq!(f.sfnt.checksum_problems(), Vec::<String>::new(), "{name} table checksums");
+        let (stored, want) = f.sfnt.file_checksum().unwrap();
+        assert_eq!(stored, want, "{name} checkSumAdjustment");
+        assert_eq!(f.structure_problems(), Vec::<String>::new(), "{name} structure");
+        f
+    }
+
+    #[test]
+    fn roboto_every_glyph_decodes_and_bbox_matches() {
+        let f = check_sfnt("Roboto-Regular.ttf");
+        assert!(f.is_glyf());
+        let (mut simple, mut comp, mut empty, mut scaled, mut nested) = (0, 0, 0, 0, 0);
+        for gid in 0..f.num_glyphs {
+            let bytes_len = f.glyph_bytes(gid).unwrap().len();
+            let g = f.glyph(gid).unwrap();
+            let bbox = match &g {
+                Glyph::Empty => {
+                    empty += 1;
+                    continue;
+                }
+                Glyph::Simple { bbox, consumed, .. } => {
+                    simple += 1;
+                    assert!(*consumed <= bytes_len && bytes_len - consumed < 4, "glyph {gid}: consumed {consumed} of {bytes_len}");
+                    *bbox
+                }
+                Glyph::Composite { bbox, components, consumed, .. } => {
+                    comp += 1;
+                    assert!(*consumed <= bytes_len && bytes_len - consumed < 4, "glyph {gid}: consumed {consumed} of {bytes_len}");
+                    if components.iter().any(|c| c.xform != [0x4000, 0, 0, 0x4000]) {
+                        scaled += 1;
+                    }
+                    if components.iter().any(|c| matches!(f.glyph(c.gid).unwrap(), Glyph::Composite { .. })) {
+                        nested += 1;
+                    }
+                    *bbox
+                }
+            };
+            let o = f.flatten(gid).unwrap();
+            let xs: Vec<f64> = o.iter().flatten().map(|p| p.x).collect();
+            let ys: Vec<f64> = o.iter().flatten().map(|p| p.y).collect();
+            let mn = |v: &[f64]| v.iter().cloned().fold(f64::MAX, f64::min);
+            let mx = |v: &[f64]| v.iter().cloned().fold(f64::MIN, f64::max);
+            let got = [mn(&xs), mn(&ys), mx(&xs), mx(&ys)];
+            for k in 0..4 {
+                assert!((got[k] - bbox[k] as f64).abs() <= 1.0, "glyph {gid}: header bbox {bbox:?}, flattened outline bbox {got:?}");
+            }
+        }
+        eprintln!("roboto: {simple} simple, {comp} composite ({scaled} with a transform, {nested} nested), {empty} empty");
+        assert!(simple > 500 && comp > 100 && empty >= 1);
+        // advances come from hmtx for every glyph
+        for gid in 0..f.num_glyphs {
+            f.advance(gid).unwrap();
+            f.lsb(gid).unwrap();
+        }
+    }
+
+    #[test]
+    fn cmap_subtables_agree_and_known_points() {
+        for name in ["Roboto-Regular.ttf", "SourceSans3-Regular.otf"] {
+            let f = check_sfnt(name);
+            let cm = f.cmap().unwrap();
+            let usable: Vec<&CmapSub> = cm.subs.iter().filter(|s| (s.format == 4 || s.format == 12) && (s.platform == 3 || s.platform == 0)).collect();
+            assert!(!usable.is_empty());
+            let base = cm.mappings(usable[0]).unwrap();
+            assert!(base.len() > 500, "{name}: {} mappings", base.len());
+            for s in &usable[1..] {
+                let other = cm.mappings(s).unwrap();
+                let a: Vec<_> = base.iter().filter(|e| e.0 <= 0xFFFF).collect();
+                let b: Vec<_> = other.iter().filter(|e| e.0 <= 0xFFFF).collect();
+                assert_eq!(a, b, "{name}: subtables disagree on the BMP");
+            }
+            // every mapped glyph exists; lookup agrees with the enumeration
+            for &(c, g) in &base {
+                assert!(g < f.num_glyphs);
+                assert_eq!(cm.lookup_in(usable[0], c).unwrap(), g);
+            }
+            assert_ne!(cm.unicode_lookup('A' as u32).unwrap(), 0);
+            assert_ne!(cm.unicode_lookup(0x0416).unwrap(), 0, "{name} Cyrillic");
+            assert_eq!(cm.unicode_lookup(0x4E2D).unwrap(), 0, "{name} has no CJK");
+            // A and B are different glyphs with plausible advances
+            let (ga, gb) = (cm.unicode_lookup(65).unwrap(), cm.unicode_lookup(66).unwrap());
+            assert_ne!(ga, gb);
+            let adv = f.advance(ga).unwrap() as f64 / f.units_per_em as f64;
+            assert!(adv > 0.4 && adv < 0.8, "{name}: advance of A = {adv} em");
+        }
+    }
+
+    pub fn sq(x: i16, y: i16, w: i16) -> Vec<(i16, i16, bool)> {
+        vec![(x, y, true), (x + w, y, true), (x + w, y + w, true), (x, y + w, true)]
+    }
+
+    pub fn sample_font(long_loca: bool) -> SFont {
+        let simple = |c: Vec<Vec<(i16, i16, bool)>>, ins: Vec<u8>| Body::Simple { contours: c, instructions: ins };
+        let g = |adv, body| SGlyph { advance: adv, lsb: 3, body };
+        SFont {
+            units_per_em: 2048,
+            long_loca,
+            num_h_metrics: 6,
+            cmap12: true,
+            pad_table: 0,
+            cmap: vec![(0x20, 1), (0x41, 2), (0x42, 3), (0xC9, 4), (0x1F600, 7), (0x416, 5), (0x417, 6)],
+            glyphs: vec![
+                g(500, simple(vec![sq(0, 0, 500), vec![(100, 100, true), (250, 400, false), (400, 100, true)]], vec![1, 2, 3])),
+                g(250, Body::Empty),
+                g(600, simple(vec![vec![(0, 0, true), (300, 700, false), (600, 0, true), (300, -200, false), (300, 1, true)]], vec![])),
+                g(700, simple(vec![sq(10, 20, 300), sq(-400, 1000, 255), sq(0, 0, 256)], vec![9; 5])),
+                // composite: A + scaled accent, with instructions
+                g(
+                    610,
+                    Body::Composite {
+                        comps: vec![
+                            Comp { gid: 2, arg: Arg::XyBytes(0, 0), xform: Xform::None, extra_flags: USE_MY_METRICS },
+                            Comp { gid: 3, arg: Arg::XyWords(300, 800), xform: Xform::Scale(0x2000), extra_flags: 0x0004 },
+                        ],
+                        instructions: vec![7, 7, 7],
+                    },
+                ),
+                // nested composite with 2x2 and x/y scale, scaled offset
+                g(
+                    800,
+                    Body::Composite {
+                        comps: vec![
+                            Comp { gid: 4, arg: Arg::XyWords(-20, 10), xform: Xform::TwoByTwo(0x4000, 0x1000, -0x0800, 0x3000), extra_flags: SCALED_COMPONENT_OFFSET },
+                            Comp { gid: 0, arg: Arg::XyBytes(-5, 100), xform: Xform::XY(0x6000, 0x2000), extra_flags: UNSCALED_COMPONENT_OFFSET },
+                        ],
+                        instructions: vec![],
+                    },
+                ),
+                // point matching
+                g(
+                    900,
+                    Body::Composite {
+                        comps: vec![
+                            Comp { gid: 3, arg: Arg::XyBytes(0, 0), xform: Xform::None, extra_flags: 0 },
+                            Comp { gid: 2, arg: Arg::PtBytes(5, 2), xform: Xform::Scale(0x3000), extra_flags: 0 },
+                            Comp { gid: 5, arg: Arg::PtWords(1, 0), xform: Xform::None, extra_flags: 0 },
+                        ],
+                        instructions: vec![1],
+                    },
+                ),
+                g(111, simple(vec![sq(0, 0, 10)], vec![])),
+            ],
+        }
+    }
+
+    #[test]
+    fn synthetic_fonts_read_back() {
+        for long in [false, true] {
+            let spec = sample_font(long);
+            let bytes = spec.build();
+            let f = Font::parse(&bytes).unwrap();
+            assert_eq!(f.sfnt.directory_problems(), Vec::<String>::new());
+            assert_eq!(f.sfnt.checksum_problems(), Vec::<String>::new());
+            let (s, w) = f.sfnt.file_checksum().unwrap();
+            assert_eq!(s, w);
+            assert_eq!(f.structure_problems(), Vec::<String>::new());
+            assert_eq!(f.index_to_loc_format, long as i16);
+            assert_eq!(f.num_glyphs, 8);
+            for gid in 0..8u16 {
+                let got = f.flatten(gid).unwrap();
+                let want = spec.expected_outline(gid).unwrap();
+                assert_eq!(outline_diff(&got, &want), None, "glyph {gid} long={long}");
+                assert_eq!(f.advance(gid).unwrap(), spec.file_advance(gid));
+                assert_eq!(f.lsb(gid).unwrap(), 3);
+            }
+            // shared trailing advance
+            assert_eq!(f.advance(6).unwrap(), 800);
+            assert_eq!(f.advance(7).unwrap(), 800);
+            // hand-computed point: glyph 4 = A (unchanged) + glyph 3 scaled by 0.5 then moved by (300,800)
+            let o = f.flatten(4).unwrap();
+            assert_eq!(o.len(), 1 + 3);
+            assert_eq!(o[1][0], Pt { x: 10.0 * 0.5 + 300.0, y: 20.0 * 0.5 + 800.0, on: true });
+            assert_eq!(o[2][2], Pt { x: (-400.0 + 255.0) * 0.5 + 300.0, y: (1000.0 + 255.0) * 0.5 + 800.0, on: true });
+            // glyph 5, component 1: 2x2 applied to glyph 4's first point (0,0) -> offset (-20,10) through the matrix too
+            let o5 = f.flatten(5).unwrap();
+            let (a, b, c, d) = (1.0, 0.25, -0.125, 0.75);
+            assert_eq!(o5[0][0], Pt { x: a * -20.0 + c * 10.0, y: b * -20.0 + d * 10.0, on: true });
+            assert_eq!(o5[0][1], Pt { x: a * 300.0 + c * 700.0 + (a * -20.0 + c * 10.0), y: b * 300.0 + d * 700.0 + (b * -20.0 + d * 10.0), on: false });
+            // glyph 6: component 2 is matched so that its point 2 lands on compound point 5
+            let o6 = f.flatten(6).unwrap();
+            let flat: Vec<Pt> = o6.iter().flatten().copied().collect();
+            assert_eq!((flat[12 + 2].x, flat[12 + 2].y), (flat[5].x, flat[5].y));
+            // cmap
+            let cm = f.cmap().unwrap();
+            assert_eq!(cm.unicode_lookup(0x41).unwrap(), 2);
+            assert_eq!(cm.unicode_lookup(0x417).unwrap(), 6);
+            assert_eq!(cm.unicode_lookup(0x1F600).unwrap(), 7);
+            assert_eq!(cm.unicode_lookup(0x43).unwrap(), 0);
+            let s4 = cm.subs.iter().find(|s| s.format == 4).unwrap();
+            assert_eq!(cm.lookup_in(s4, 0xC9).unwrap(), 4);
+            assert_eq!(cm.lookup_in(s4, 0x1F600).unwrap(), 0);
+            assert_eq!(f.closure(6).unwrap(), vec![6, 3, 2, 5, 4, 0]);
+        }
+    }
+
+    #[test]
+    fn damage_is_noticed() {
+        let spec = sample_font(false);
+        let mut bytes = spec.build();
+        let f = Font::parse(&bytes).unwrap();
+        let g = f.sfnt.rec(b"glyf").unwrap().offset as usize;
+        bytes[g + 12] ^= 0x40;
+        let f2 = Font::parse(&bytes).unwrap();
+        assert!(!f2.sfnt.checksum_problems().is_empty());
+        let (s, w) = f2.sfnt.file_checksum().unwrap();
+        assert_ne!(s, w);
+    }
+}
